@@ -359,7 +359,7 @@ def pq_values(rng, typ, n, nulls=0.22):
 
 
 def gen_pq(rng, cid):
-    mode = rng.choice(["ok"] * 16 + ["time_null", "bad_time_type", "missing_time", "collision", "unsupported_col", "underscore",
+    mode = rng.choice(["ok"] * 16 + ["time_null", "time_null", "bad_time_type", "missing_time", "collision", "unsupported_col", "underscore",
                                      "biguint", "overflow", "tscol_overflow", "unsupported_fmt", "norows", "time_nan"])
     n = rng.randint(2, 8)
     if mode == "norows":
@@ -437,6 +437,36 @@ def pq_witness_cases():
     return [c("regression-pq-uint64", [col("time", "ts_us", ["1700000000000000"]), col("big", "uint64", ["9223372036854775813"])]),
             c("regression-pq-ts-overflow", [col("time", "ts_s", ["9223372036855"]), col("v", "int64", ["1"])]),
             c("regression-pq-tscol-overflow", [col("time", "ts_us", ["1700000000000000"]), col("seen", "ts_s", ["9223372036855"])])]
+
+
+def pq_null_time_cases():
+    """A NULL in the TIME column must reject the whole file: every accepted time-column type
+    (timestamp s/ms/us/ns, int16/32/64, uint32/64, float32/64, string, binary) x NULL at the first /
+    middle / last row, next to one ordinary column."""
+    def col(name, typ, values):
+        return {"name": base64.b64encode(name.encode()).decode(), "type": typ, "values": values}
+    base = 1_700_000_000
+    out = []
+    for typ in ("ts_s", "ts_ms", "ts_us", "ts_ns", "int64", "int32", "int16", "uint32", "uint64", "float64", "float32", "string", "binary"):
+        if typ in TUNIT:
+            vals = [str((base + i) * {"ts_s": 1, "ts_ms": 10 ** 3, "ts_us": 10 ** 6, "ts_ns": 10 ** 9}[typ]) for i in range(3)]
+        elif typ == "int16":
+            vals = [str(1000 + i) for i in range(3)]
+        elif typ == "float64":
+            vals = [str(f64bits(base + i + 0.5)) for i in range(3)]
+        elif typ == "float32":
+            vals = [str(struct.unpack(">I", struct.pack(">f", 1000.0 + i))[0]) for i in range(3)]
+        elif typ in ("string", "binary"):
+            vals = [base64.b64encode(str(base + i).encode()).decode() for i in range(3)]
+        else:
+            vals = [str(base + i) for i in range(3)]
+        for pos, where in ((0, "first"), (1, "middle"), (2, "last")):
+            tv = list(vals)
+            tv[pos] = None
+            out.append({"id": "nulltime-%s-%s" % (typ, where), "kind": "parquet", "mode": "pq_null_time", "data": "",
+                        "time_column": "time", "time_format": "", "delimiter": "", "skip_rows": 0,
+                        "pq": [col("time", typ, tv), col("v", "int64", ["1", "2", "3"])]})
+    return out
 
 
 def pqcol_to_coq(c, widen=True):
@@ -717,9 +747,9 @@ def run(res, tier, seed):
         "four fifths of the uploads call importCSV/importParquet in-package; one fifth go through the real handleCSVImport/handleParquetImport (multipart form, query options, importPreamble) on ONE reused fasthttp.RequestCtx with max_buffer_size=1 and a held flush worker, the next request overwriting the connection buffers before the flush builds the storage path - the model has value semantics: rows must be found under the request's own database/measurement and nowhere else; RBAC and the size limit are not exercised",
     ]
 
-    n, m = (260, 100) if tier == "quick" else (6000, 2500)
+    n, m = (260, 80) if tier == "quick" else (6000, 2500)
     t1 = time.time()
-    fixed = witness_cases() + pq_witness_cases() + corpus_cases()
+    fixed = witness_cases() + pq_witness_cases() + pq_null_time_cases() + corpus_cases()
     cases = fixed + [gen_csv(rng, i) for i in range(n)] + [gen_pq(rng, n + i) for i in range(m)]
     # every fifth generated upload goes through the real HTTP handler on a reused connection whose
     # request buffers are overwritten by a following import while this one's flush is still queued
@@ -743,7 +773,7 @@ def run(res, tier, seed):
                        "(auto by magnitude incl. the thresholds, or explicit format), fractional epochs, RFC 3339 / space / date text, padded values; "
                        "malformed stream: header errors, bad time cells, no rows, csv errors, bad delimiters, unsupported formats; generated Parquet files (built by "
                        "the harness with arrow-go): int8..uint64, float32/64, bool, string, binary, timestamp s/ms/us/ns columns with nulls, time column as "
-                       "timestamp / integer / float / text, null or NaN times, unsupported types; + the refutation witnesses + corpus.  non-trivial = accepted "
+                       "timestamp / integer / float / text, NULL times (every time-column type x first/middle/last row) or NaN times, unsupported types; + the refutation witnesses + corpus.  non-trivial = accepted "
                        "upload storing >= 2 distinct cell types and containing >= 1 empty cell / null; distinct by upload content and options.  The uploads "
                        "that witnessed the repaired defects (overflowing epoch, '_' column, over-long row, uint64 > MaxInt64, timestamp overflow) run first as regression cases")
     res.cov["model_vs_impl_disagreements"] = len(dis)
